@@ -11,7 +11,10 @@ Open Scope Z_scope.
 Open Scope list_scope.
 
 Record ost := mkO { o_note : bool; o_l : list Q }.
-Definition odur (s : ost) : Q := qsum (o_l s).
+(* Melody.duration: python's Fractions stay reduced; summing with a reduction at every step keeps the model's numbers small too
+   (Qplus alone multiplies the denominators of thousands of pieces) *)
+Definition qsum_red (l : list Q) : Q := fold_left (fun a x => Qred (a + x)%Q) l 0%Q.
+Definition odur (s : ost) : Q := qsum_red (o_l s).
 
 Section Pipe.
   Variable sdf : Q -> Q.              (* the rounding of Note.set_duration / Note.augment *)
